@@ -179,6 +179,7 @@ type Event struct {
 	Writes [][]string `json:"writes,omitempty"`
 	// describe
 	Binds    map[string]map[string]BindDesc `json:"binds,omitempty"`
+	BindsQ   map[string]map[string]BindDesc `json:"bindsq,omitempty"` // same, sequences and actions Go-quoted (lossless for raw bytes)
 	Commands []string                       `json:"commands,omitempty"`
 	VarsDesc map[string]string              `json:"vars,omitempty"`
 	// stacks
